@@ -14,9 +14,13 @@ type Control struct {
 	File   string // repository-relative
 	Old    string
 	New    string
+	More   []Edit // further edits applied together with the first
 	Expect string // substring of an obligation key that must be reported (control mutant)
 	Silent bool   // behaviour-preserving variant: no new violation may appear
 }
+
+// Edit is an additional text replacement of a control.
+type Edit struct{ File, Old, New string }
 
 // Prop is one property's rule set.
 type Prop struct {
